@@ -77,6 +77,18 @@ def run(task):
                 res["outcomes"].append(h(shape))
                 if sp or shape[-1] >= 2:
                     res["nontrivial"].append(key)
+                if backend == "cbc" and len(res["state_set"]) % 3 == 0:
+                    k = len(res["state_set"])
+                    wrec = {"k": "pos", "de": 0.35} if recipe["k"] != "pos" else {"k": "comb", "a": 1.0, "b": 1.0, "de": 1.0}
+                    warm = {"recipe": wrec, "how": A.WARM_KINDS[(k // 3) % len(A.WARM_KINDS)]}
+                    obs2 = A.eval_case(spec, recipe, backend, KIND, warm=warm)
+                    res["evaluations"] += 1
+                    res["transitions"] += 2
+                    res["traces"] += 1
+                    msg2 = judge(spec, obs2)
+                    if msg2:
+                        res["violations"].append({"msg": msg2 + f" [continuum reached by {warm['how']}() after an earlier alignment]",
+                                                  "case": dict(A.case_dict(spec, recipe, backend, KIND), warm=warm)})
                 if len(res["samples"]) < 2 and sp and shape[-1] >= 2:
                     res["samples"].append({"continuum": spec, "dissimilarity": recipe, "backend": backend,
                                            "returned_unitary_alignments": obs["nts"]})
@@ -84,6 +96,6 @@ def run(task):
 
 
 def replay(case):
-    obs = A.eval_case(case["spec"], case["recipe"], case["backend"], KIND)
+    obs = A.eval_case(case["spec"], case["recipe"], case["backend"], KIND, warm=case.get("warm"))
     msg = judge(case["spec"], obs)
     return [{"msg": msg, "case": case}] if msg else []
